@@ -53,3 +53,23 @@ Theorem c16_float_definition :
     q_round (StF prec emax Hprec Hmax lib) (fround_op prec emax Hprec Hmax lib r) U d k ca cs v
     = q_new (StF prec emax Hprec Hmax lib) U d k ca (fround_op prec emax Hprec Hmax lib r (q_get (StF prec emax Hprec Hmax lib) U d k cs v)).
 Proof. reflexivity. Qed.
+
+(* floats, offset-free unit, any rounding function r of the storage type: read back in the unit, the
+   result is within (1/(1-u))^(n1+n2) - 1 relative of r(value in the unit) — which is an integer for
+   floor/ceil/round/trunc (c16_float_roundings_are_mathematical) — whenever no intermediate of the two
+   conversions overflows or underflows *)
+From UomV Require Import Proofs.Tree Proofs.ErrBound Proofs.ErrOffset.
+Theorem c16_float_readback_accuracy :
+  forall prec emax (Hprec : Prec_gt_0 prec) (Hmax : Prec_lt_emax prec emax) lib (r : binary_float prec emax -> binary_float prec emax)
+         (U : list (binary_float prec emax)) d (k v : binary_float prec emax),
+    let St := StF prec emax Hprec Hmax lib in
+    let y := r (q_get St U d k (B754_zero false) v) in
+    let t1 := to_base_tree prec emax Hprec Hmax lib U d k y in
+    let t2 := from_base_tree prec emax Hprec Hmax lib U d k (evalF prec emax Hprec Hmax t1) in
+    Safe prec emax Hprec Hmax t1 -> Safe prec emax Hprec Hmax t2 ->
+    q_get St U d k (B754_zero false) (q_round St r U d k (B754_zero true) (B754_zero false) v) = evalF prec emax Hprec Hmax t2
+    /\ (Rabs (B2R (evalF prec emax Hprec Hmax t2) - B2R y) <= (H prec ^ (ops prec emax t1 + ops prec emax t2) - 1) * Rabs (B2R y))%R.
+Proof.
+  intros prec emax Hprec Hmax lib r U d k v St y t1 t2 S1 S2.
+  exact (roundtrip_relerr prec emax Hprec Hmax lib U d k y S1 S2).
+Qed.
